@@ -40,6 +40,67 @@ def _fractionalise(case, rng, mode=0):
     case["fractional_mode"] = mode
 
 
+def _whole_starts_fractional_durations(case, rng):
+    """mode 3: every start time is a whole number written as an integer (the parsed ts column is int64, so the loader does not round at
+    all) and the durations have quarter-microsecond fractions: each row's duration is the file's, and its end is start + duration."""
+    for rk in case["ranks"].values():
+        for e in rk["events"]:
+            if "dur" in e and isinstance(e["dur"], int):
+                e["dur"] = e["dur"] + rng.choice([0.0, 0.25, 0.5, 0.75, 0.5])
+    if rng.random() < 0.5:
+        # ... and one rank has a host process / thread known by a name instead of a number (a data-loader worker, say): ids decode to the
+        # file's values whatever their type
+        rk = case["ranks"][sorted(case["ranks"])[0]]
+        host = [e for e in rk["events"] if e.get("ph") == "X" and "dur" in e and "stream" not in (e.get("args") or {})
+                and isinstance(e.get("tid"), int) and not str(e.get("name", "")).startswith("ProfilerStep")]
+        if host:
+            pid0, tid0 = host[-1]["pid"], host[-1]["tid"]
+            for e in host:
+                if e["pid"] == pid0 and e["tid"] == tid0:
+                    e["tid"] = "worker-0"
+                    if rng.random() < 0.5:
+                        e["pid"] = "dataloader"
+            case["named_ids"] = True
+    case["fractional"] = True
+    case["fractional_mode"] = 3
+
+
+def _run_mode3(case, d):
+    """parse-only and full load of a mode-3 file set; every row is compared with its file entry here (exact binary fractions)"""
+    from hta.common.trace import Trace
+    paths = tracegen.write_case(case, d)
+    problems = []
+    nrows = 0
+    for what in ("parse", "load"):
+        try:
+            t = Trace(trace_files=dict(paths), trace_dir=d)
+            if what == "parse":
+                t.parse_traces()
+            else:
+                t.load_traces(include_last_profiler_step=True)
+        except Exception as e:
+            return {"problems": [f"{what} raised {type(e).__name__}: {str(e)[:200]}"], "rows": 0}
+        for r in sorted(t.traces):
+            evs = case["ranks"][r]["events"]
+            df = t.traces[r]
+            for idx, ts, dur, end, pid, tid in zip(df["index"], df["ts"], df["dur"], df["end"] if "end" in df.columns else df["ts"] + df["dur"],
+                                                   df["pid"], df["tid"]):
+                e = evs[int(idx)]
+                nrows += 1
+                same = lambda got, want: (isinstance(got, str) and got == want) if isinstance(want, str) else (not isinstance(got, str) and got == want)
+                if not same(pid, e["pid"]) or not same(tid, e["tid"]):
+                    problems.append(f"{what}: rank {r} row {int(idx)}: (pid, tid) = ({pid!r}, {tid!r}), the file has ({e['pid']!r}, {e['tid']!r})")
+                elif float(dur) != float(e["dur"]):
+                    problems.append(f"{what}: rank {r} row {int(idx)}: dur {dur}, the file has {e['dur']} (whole start times, nothing to round)")
+                elif float(ts) != float(e["ts"] - t.min_ts):
+                    problems.append(f"{what}: rank {r} row {int(idx)}: ts {ts}, the file has {e['ts']} and the common shift is {t.min_ts}")
+                elif float(end) != float(ts) + float(dur):
+                    problems.append(f"{what}: rank {r} row {int(idx)}: end {end} != ts + dur = {float(ts) + float(dur)}")
+                if len(problems) >= 4:
+                    return {"problems": problems, "rows": nrows}
+    return {"problems": problems, "rows": nrows}
+
+
 def gen_cases(seed, tier, n):
     out = []
     profs = ["default", "fifo_steps", "fifo_tiny", "loader_mix", "default", "fifo_steps", "fifo_tiny", "loader_mix", "loader_s0", "fifo_steps", "loader_pad"]
@@ -55,7 +116,10 @@ def gen_cases(seed, tier, n):
                         if "ts" in e:
                             e["ts"] -= c["epoch"]
                 c["epoch"] = 0
-            _fractionalise(c, rng, (i // 5) % 3)
+            if (i // 5) % 4 == 3:
+                _whole_starts_fractional_durations(c, rng)
+            else:
+                _fractionalise(c, rng, (i // 5) % 4)
         if i % 7 == 3 and len(c["ranks"]) > 1:
             # one later rank whose vocabulary is the union of all ranks' (its local symbol table has the job table's size, in
             # another order): copies of the other ranks' entries are appended to it
@@ -70,11 +134,15 @@ def gen_cases(seed, tier, n):
 
 
 def run_impl(case, d):
+    if case.get("fractional_mode") == 3:
+        return {"mode3": _run_mode3(case, d)}
     out = lc.run_loader(case, d)
     return {"out": out}
 
 
 def coq_term(case, impl):
+    if case.get("fractional_mode") == 3:
+        return "encode_round []"
     if case.get("fractional"):
         return lc.frac_term(case)
     return lc.coq_term(case)
@@ -85,6 +153,8 @@ def _proj(rows):
 
 
 def compare(case, impl, model):
+    if "mode3" in impl:
+        return impl["mode3"]["problems"]
     o = impl["out"]
     disc = []
     if "parse_error" in o:
@@ -161,6 +231,8 @@ def nontrivial(case, impl):
 
 
 def classify(case, impl, model, disc):
+    if "mode3" in impl:
+        return None
     if disc and all("!= ts+dur" in x and "after load" in x for x in disc):
         return "C01-end-not-shifted"
     return None
